@@ -263,13 +263,14 @@ private:
         {
             typename View_Dst::x_iterator it = dst.row_begin( y );
 
+            // the columns of the requested region, like the overload for all other destinations
             for( typename View_Dst::x_coord_t x = 0
-               ; x < dst.width()
+               ; x < this->_settings._dim.x
                ; ++x
                )
             {
                 // (the row holds 0 / 255)
-                it[x] = ( at_c<0>( src[x] ) != 0 ) ? 1 : 0;
+                it[x] = ( at_c<0>( src[x + this->_settings._top_left.x] ) != 0 ) ? 1 : 0;
             }
         }
         else
